@@ -167,3 +167,7 @@ kani_unit("fft_index", "winter-math", "math/src/fft/mod.rs", "kani/math_fft.rs",
 ])
 
 verus_unit("fftv", "fftv", ["C09"], ["fft::fft_inputs::FftInputs::permute (every power-of-two length: position t receives the element at the bit-reversed position)"])
+
+verus_unit("fftcore", "fftcore", ["C09"], [
+    "fft::fft_inputs::fft_in_place (the butterfly network: every power-of-two length, every element value, every twiddle table; equals the radix-2 decimation-in-time recursion on each interleaved subsequence, other positions untouched)",
+    "FftInputs::fft_in_place (entry point: the whole input is one subsequence)"])
